@@ -3,6 +3,7 @@
 from __future__ import annotations
 
 import ast
+import re
 
 from ..astq import attr_stores, body_walk, dotted, src, walk_local, norm_stmt, fn_calls
 from ..cfg import CFG
@@ -261,6 +262,13 @@ def r3_tristate(chk: Check):
             gs = [(rd.canon(x.ast, x), pol) for x, pol in gl.guards(n) if x.kind == "test" and "as_instance" not in src(x.ast)]
             ok = all(("is None" in c and pol is False) for c, pol in gs if "meta" in c)
             chk.require(ok, chk.fkey(lo, "meta read under is-not-None"), f"the tri-state meta flag is restored under {gs} (truthiness loses meta=False)", chk.loc(lo.module, s))
+            # "not written" must come back as "unset" (None), never as a definite True / False
+            cv = rd.canon(v, n) if v is not None else "?"
+            guarded = any("meta" in c and "is None" in c and pol is False for c, pol in gs)
+            m_ = re.search(r"\.get\('meta'(?:, (.+))?\)$", cv)
+            unset_ok = guarded or (m_ is not None and m_.group(1) in (None, "None"))
+            chk.require(unset_ok, chk.fkey(lo, "absent meta stays unset"), f"the meta flag is restored as `{cv}` under {gs}: a record without `meta` must leave the flag unset (None); a definite False forces every "
+                        "ignored parameter of the reloaded graph into the signature, so reloaded identifiers differ from the originals", chk.loc(lo.module, s))
 
 
 def r4_all_values_written(chk: Check):
@@ -340,11 +348,19 @@ def r6_top_level(chk: Check):
     chk.require("self.tags()" in src(oj.node), chk.fkey(oj, "tags of the graph"), "the parameter file must record the tags of the whole graph (self.tags())", chk.loc(oj.module, oj.node))
 
 
+def r7_recomputed_not_stale(chk: Check):
+    """"identifiers equal to the originals when recomputed": the loader must not pre-fill the identifier caches (the stored identifier is the full one; compute() would return it as the raw one)"""
+    from . import c01
+
+    c01.r3_cache(chk)
+
+
 RULES = [
     ("R1", "record keys: mandatory keys unconditional; optional keys written exactly when their source is set; every key read is written; pre-tasks / init-tasks / task / meta / fields / typename / identifier are restored", r1_record_keys),
     ("R2", "value tags: every storable kind is written; tags and payload keys of writer and loader agree; references go through the objects table; the collector reaches what the writer references", r2_value_tags),
     ("R3", "the tri-state meta flag is written and read under `is not None`", r3_tristate),
     ("R4", "every argument value (ignored, generated, constant included) is written", r4_all_values_written),
     ("R5", "sharing and cycles: visited-test and mark before recursion, children before parent; loader creates all objects before filling", r5_sharing),
+    ("R7", "identifiers of a reloaded graph are recomputed, never taken from a cache filled by the loader (= C01.R3: only identifiers() writes the cache)", r7_recomputed_not_stale),
     ("R6", "top-level keys of the parameter file read by run / load_job / filters / from_task_dir are written; tags reach the task before execute()", r6_top_level),
 ]
